@@ -58,8 +58,10 @@ def ev(t, env):
         if not isinstance(a, int) or not isinstance(b, int):
             raise Unknown(mir.show(t))
         op = t[1].replace("Unchecked", "")
+        wide = any(isinstance(x, tuple) and x and x[0] == "cast" and len(x) > 3 and x[3] in ("u128", "i128") for x in (t[2], t[3]))
+        lim = 2 ** 128 if wide else U64
         if op == "Add":
-            if a + b >= U64:
+            if a + b >= lim:
                 raise Overflow("add")
             return a + b
         if op == "Sub":
@@ -67,7 +69,7 @@ def ev(t, env):
                 raise Overflow("sub")
             return a - b
         if op == "Mul":
-            if a * b >= U64:
+            if a * b >= lim:
                 raise Overflow("mul")
             return a * b
         if op in ("Div", "Rem"):
@@ -111,6 +113,13 @@ def ev(t, env):
             if isinstance(o, tuple) and o[0] == "opt":
                 return ev(args[1], env) if o[1] is None else o[1]
         if nm in ("from", "into", "clone") and len(args) == 1:
+            return ev(args[0], env)
+        if nm in ("saturating_add", "saturating_mul", "wrapping_add", "wrapping_mul") and len(args) == 2 and t[1].startswith("core::num"):
+            a, b = ev(args[0], env), ev(args[1], env)
+            if isinstance(a, int) and isinstance(b, int):
+                v = a + b if nm.endswith("add") else a * b
+                return min(v, U64 - 1) if nm.startswith("saturating") else v % U64
+        if nm == "get" and len(args) == 1 and "nonzero" in t[1]:
             return ev(args[0], env)
         if nm == "len" and len(args) == 1:
             v = ev(args[0], env)
